@@ -147,6 +147,45 @@ def reference_sinks(prog, eff):
                     yield b, pos, s["ln"], t, eff.origin(b, t), s["rv"]["mut"]
 
 
+def _extent_in_window(prog, eff, b, s, o):
+    from ..bounds import Bounds, norm as bnorm
+    from ..failsum import subst
+    acc = effects.base_of(o[1])
+    want = (bnorm(eff.inline(s["count"])), bnorm(('field', acc, 'size')))
+    B = Bounds(b.facts_at(s["pos"]))
+    if B.le(*want):
+        return "count <= length of the guarded accessor at the access (ordering closure over the dominating facts)"
+    adt = (eff._type_of_base(b, acc) or "")
+    if adt.endswith("VolatileArrayRef") or adt.endswith("VolatileRef"):
+        # the window of an element accessor is nelem * size_of::<T>() (resp. size_of::<T>()) bytes long
+        nacc = bnorm(acc)
+
+        def is_len(t):
+            return (t[0] == 'field' and t[2] == 'nelem' and t[1] == nacc) or (t[0] == 'call' and canon(t[1]).endswith("VolatileArrayRef::len") and t[2] and bnorm(t[2][0]) == nacc)
+
+        def is_esz(t):
+            return t[0] == 'call' and (canon(t[1]).split("::")[-1] == "size_of" or canon(t[1]).endswith("::element_size"))
+        for m in subterms(want[0]):
+            if m[0] == 'bin' and m[1] == 'Mul' and ((is_len(m[2]) and is_esz(m[3])) or (is_len(m[3]) and is_esz(m[2]))) and B.le(want[0], m):
+                return "count <= nelem * size_of::<T>() of the guarded element accessor"
+            if adt.endswith("VolatileRef") and is_esz(m) and B.le(want[0], m):
+                return "count <= size_of::<T>() of the guarded reference"
+    root = prog.by_id.get(b.root, b) if b.kind == "Closure" else b
+    f = prog.fns.get(root.id)
+    if b is not root or f is None or f.get("vis") == "pub":
+        return None
+    if any(x[0] in ('var', 'unknown') for t in want for x in subterms(t)):
+        return None
+    sites = [(cb, c) for cb in prog.bodies for c in cb.calls() if c.target == b.id]
+    if not sites:
+        return None
+    for cb, c in sites:
+        args = [bnorm(eff.inline(a)) for a in c.args()]
+        if not Bounds(cb.facts_at(c.pos)).le(bnorm(eff.inline(subst(want[0], args))), bnorm(eff.inline(subst(want[1], args)))):
+            return None
+    return f"crate-internal helper: each of its {len(sites)} call site(s) passes a count <= the length of the slice it passes"
+
+
 def rule_access_in_guard(rep, prog, eff):
     n = 0
     seen = set()
@@ -169,6 +208,13 @@ def rule_access_in_guard(rep, prog, eff):
             rep("R17.2.in_guard", inst, ok, b.where(s["ln"]),
                 f"{s['kind']} {'to' if role == 'dst' else 'from'} `{tstr(X)}`: pointer provenance {c05.show_origin(o)}" +
                 ("" if ok else " — the stored address is used without a pointer guard; on a region mapped on demand it is not backed by any mapping"))
+            # R17.7: a counted access starting at a guard's pointer stays inside that guard's window (the accessor's length); the
+            # bound holds at the access, or — in a crate-internal helper that takes the count as a parameter — at every call site
+            if o[0] == 'guard' and s.get("count") is not None and s.get("via") == "prim":
+                why = _extent_in_window(prog, eff, b, s, o)
+                rep("R17.7.extent_in_window", inst, why is not None, b.where(s["ln"]),
+                    why or f"{s['kind']} of `{tstr(s['count'])[:50]}` bytes through a guard of `{tstr(X)[:50]}`: nothing shows count <= that accessor's length (the temporary "
+                           "mapping of an on-demand region covers the accessor, not more)")
         for p in problems:
             b = p["body"]
             inst = f"{b.key}|{p['kind']}|{role}|unclassified"
